@@ -5,41 +5,41 @@ props = [json.loads(l) for l in open('/verif/properties.jsonl')]
 hook = subprocess.run("git -C /repo log --format=%h --grep='verif hook' | head -1", shell=True, capture_output=True, text=True).stdout.strip()
 T = {
  'C01': ('differential runtime monitoring: every parse verdict of all 13 entry points (and of character sources without a size hint or declaring other encoded lengths) compared with a reference RFC 8259 / UTF-8 recognizer over bounded-exhaustive and generated inputs; typed Parse impls against their token grammars',
-         'every string over a 33-character alphabet (len<=5, thorough 6) and an 18-token alphabet, a transition cover of the lexical automata, every scalar value after each of 44 lexical states, every byte string of <=3 bytes at three placements, every truncation and single-byte edit of the 314-file corpus, generated and damaged documents, multi-byte characters and blank runs around offsets 2^12..2^17, strings / numbers / blank runs / escape runs of every length up to 2300 / 1200 / 1200 / 72, every short text through the typed impls, irregular nesting patterns to depth 200, 26 shapes of documents nested or repeated up to 10^6 times; byte inputs re-parsed at another address alignment'),
+         'every string over a 33-character alphabet (len<=5, thorough 6) and an 18-token alphabet, a transition cover of the lexical automata, every scalar value after each of 44 lexical states, every byte string of <=3 bytes at three placements, every truncation and single-byte edit of the 314-file corpus, generated and damaged documents, multi-byte characters and blank runs around offsets 2^12..2^17, strings / numbers / blank runs / escape runs of every length up to 2300 / 1200 / 1200 / 72, every short text through the typed impls, irregular nesting patterns to depth 200, 26 shapes of documents nested or repeated up to 10^6 times (the flat valid ones also in a child process with an ordinary 8 MiB stack); byte inputs re-parsed at another address alignment'),
  'C02': ('reference-decoder oracle on every successful parse; complete sweeps of the escape/scalar tables; key lookups and the full iterator protocol of the lookup iterators against a linear scan; values also under the lenient options',
-         'all 65,536 \\uXXXX x 3 hex styles, all 1,048,576 surrogate pairs, all 1,112,064 raw scalars, all backslash+ASCII pairs (complete); small documents enumerated by walking the grammar; generated and large documents (20 k-entry objects, 140 k-item arrays); long strings, numbers and escape runs of every length; wide objects cycling over few keys; irregular nesting patterns; typed Parse impls; every code-map-returning entry point in turn'),
+         'all 65,536 \\uXXXX x 3 hex styles, all 1,048,576 surrogate pairs, all 1,112,064 raw scalars, all backslash+ASCII pairs (complete); small documents enumerated by walking the grammar; generated and large documents (20 k-entry objects, 140 k-item arrays); long strings, numbers and escape runs of every length; wide objects cycling over few keys; irregular nesting patterns; wide objects whose long keys share head and tail and differ in the middle; typed Parse impls; every code-map-returning entry point in turn'),
  'C03': ('panic capture, pull-counting / stack-address-recording character source, deep and long documents in 64 KiB threads inside child processes (exit status observed) in the release build and, thorough tier, in a dev-profile build with the library unoptimized; ASan on reduced workloads in the thorough tier',
-         'random bytes in three distributions, random character sequences, every prefix and single-byte edits of the corpus, generated and damaged documents under all 4 option values, lazy sources announcing 2^62 items, 14 nested and 12 flat shapes x sizes 10^3..10^6 (thorough 2*10^6; flat ones also at exactly 2^16-1, 2^16, 2^17), each also followed by an ill-formed byte / a failing source, volume()/count() on the results; a character source that itself parses JSON between characters; sampled inputs through sources declaring other (also zero) character lengths'),
+         'random bytes in three distributions, random character sequences, every prefix and single-byte edits of the corpus, generated and damaged documents under all 4 option values, lazy sources announcing 2^62 items, 14 nested and 12 flat shapes x sizes 10^3..10^6 (thorough 2*10^6; flat ones also at exactly 2^16-1, 2^16, 2^17), each also followed by an ill-formed byte / a failing source, volume()/count() on the results; a character source that itself parses JSON between characters; sampled inputs through sources declaring other (also zero) character lengths and through the typed Parse impls; long runs (2^12..200,000) of one ill-formed byte at three placements under a watchdog'),
  'C04': ('metamorphic monitor: print -> reference recognizer -> re-parse (parse_str and parse_slice) == value -> strip whitespace == reference compact form, over (value, option record) pairs; prints into failing sinks interleaved',
-         'three presets, exhaustive pairwise cover of the 12 numeric option fields (values 0..3) around 4 base records, random records with every Limit variant and thresholds around the actual widths and beyond any width, strings / keys / numbers of every length up to 2200 / 700, nesting to depth 80 (2000 in a roomy thread), values wider than 65,535 characters, numbers of 4,095-70,000 digits, spacing and indentation up to 256 / beyond 65,535, multi-line documents of every size class up to ~40 KiB, fmt_with at base depths up to 131,072, values obtained through Deserialize from a foreign number token'),
+         'three presets, exhaustive pairwise cover of the 12 numeric option fields (values 0..3) around 4 base records, random records with every Limit variant and thresholds around the actual widths and beyond any width, strings / keys / numbers of every length up to 2200 / 700, nesting to depth 80 (2000 in a roomy thread), values wider than 65,535 characters, numbers of 4,095-70,000 digits, spacing and indentation up to 256 / beyond 65,535, multi-line documents of every size class up to ~40 KiB, fmt_with at base depths up to 131,072, values obtained through Deserialize from a foreign number token, every Unicode scalar value (64 per string) as string and key'),
  'C05': ('reference fragment/span/volume oracle compared entry by entry with every returned code map (also under lenient options, through typed impls, and in the units of sources declaring UTF-16 / UTF-32 / escaped lengths) and aligned with Value::traverse',
          'every valid token sequence up to 7 (8) tokens in three layouts, all strings over the two alphabets up to the bound, generated, large and block-boundary documents, long lexemes of every length'),
  'C06': ('history + executable model: every operation applied to the real object and to an ordered-list model; after each operation entries, operation result, 10 kinds of key query per key, the iterator protocol of the lookup iterators and the raw index buckets (hook) are compared',
          'every history up to length 4 (5) over 2 keys, 3 (4) over 3 keys, 5 (6) over 1 key, every continuation from seeded states; threshold histories (3..449 distinct keys / 2..200 duplicates x every short tail x ~45 final operations); random histories over 1-400 keys with growth/shrink phases, grow-to-700 / drain histories; bulk construction from iterators with inexact size hints and from vectors with spare capacity; Miri/ASan/dev-profile on reduced histories in the thorough tier'),
  'C07': ('viable-prefix automaton + UTF-8 validator oracle on every parse error (variant, offset, character, span, code units) of slice, str, a rotating third entry point, typed impls and sources declaring other lengths; stream errors injected at a character position',
-         'the C01 families plus single-character edits at every position of generated documents and all sequences of surrogate/escape/raw string elements'),
- 'C08': ('byte-for-byte comparison of compact_print / to_string / Display / String::from (also under format specifications and after prints into failing sinks) with an RFC 8785 reference serializer',
+         'the C01 families plus errors below 1,023-65,537 open containers, every two-character escape next to a surrogate escape, single-character edits at every position of generated documents and all sequences of surrogate/escape/raw string elements'),
+ 'C08': ('byte-for-byte comparison of compact_print / to_string / Display / String::from (also under format specifications, after prints into failing sinks and for equal values held in other storage: front mutators, heap strings, spare capacity) with an RFC 8785 reference serializer',
          'every Unicode scalar value as one-character string and key (complete), every string of <=4 (5) characters over an 18-character class alphabet, plain and escaped strings and keys of every length up to 1100 (2100), values wider than 65,535 characters, values nested 129-300 levels, format specifications incl. the alternate flag (ignored or applied to the whole text), runs of 1-40 copies of one character of each class, generated nested values'),
  'C09': ('independent RFC 8785 implementation (UTF-16 key order; ECMAScript number rendering computed from the exact decimal expansion) compared with canonicalize + compact_print, also on values with a history',
-         'numbers of 1-400 digits, deciding digits up to 1300 places away, exact midpoints between adjacent doubles, subnormals, named extreme doubles, layout thresholds, integers around 2^53/2^63/2^64; every ordered subset of <=4 keys of nine key pools (incl. ASCII keys of 7-9 and 15-17 bytes differing in one bit); keys of 65,534-131,074 UTF-16 units sharing their prefix; wide objects sorted except for a few trailing members; arrays of records; containers of one kind nested 1-300 deep; short spellings in the subnormal range, tiny values in plain notation; generated I-JSON values'),
+         'numbers of 1-400 digits, deciding digits up to 1300 places away, exact midpoints between adjacent doubles, subnormals, named extreme doubles, layout thresholds, integers around 2^53/2^63/2^64; every ordered subset of <=4 keys of nine key pools (incl. ASCII keys of 7-9 and 15-17 bytes differing in one bit); keys of 65,534-131,074 UTF-16 units sharing their prefix; wide objects sorted except for a few trailing members; arrays of records; neighbouring objects with one key set in different orders; containers of one kind nested 1-300 deep; short spellings in the subnormal range, tiny values in plain notation; generated I-JSON values'),
  'C10': ('metamorphic monitors: idempotence, byte-identical canonical form under permutation / exact respelling / re-escaping / whitespace, preservation of shape and doubles, queryability + index invariant (hook) after canonicalization, canonicalize / edit / canonicalize',
-         'generated I-JSON documents with 5 rewritings each, every permutation of the members of small objects, pairs of numerically equal spellings, documents nested 100-200 levels, wide nearly-sorted objects and arrays of records against shuffled or rotated copies, equal-valued members under every pair and triple of keys of each pool in every order'),
+         'generated I-JSON documents with 5 rewritings each, every permutation of the members of small objects, pairs of numerically equal spellings, documents nested 100-200 levels, wide nearly-sorted objects and arrays of records against shuffled or rotated copies, equal-valued members under every pair and triple of keys of each pool in every order, neighbouring number literals that resemble each other'),
  'C11': ('reference pre-order numbering oracle for every offset yielded by the mapped iterators / lookups (full iterator protocol), get_fragment, volume/count; TryFromJson error offsets with a wrong-kind value planted at every position; also under lenient options and in the units of sources declaring other lengths',
-         'generated documents and every valid token sequence up to the bound; containers of 60-302 children; documents nested 100-260 levels; documents with unpaired surrogate escapes; 8 instantiations of the conversion traits, 18 built-in targets, the object-level conversion trait directly and through Box at every object offset, the iterator protocol on traverse(); byte inputs with raw and ill-formed sequences under every option record (whatever is accepted must have spans that read back as the fragments)'),
+         'generated documents and every valid token sequence up to the bound; containers of 60-302 children; documents nested 100-260 levels; documents with unpaired surrogate escapes; 8 instantiations of the conversion traits (a wrong-kind number and a second value planted at every position, judged by a model of the traits), 18 built-in targets, the object-level conversion trait directly and through Box at every object offset, the iterator protocol on traverse(); byte inputs with raw and ill-formed sequences under every option record (whatever is accepted must have spans that read back as the fragments)'),
  'C12': ('reference lenient decoder (four option values) compared on acceptance, decoded text and code map; all six option-taking entry points',
-         'every sequence of <=4 (6) string elements from 8 element kinds in 8 shapes x 4 option values, escape runs up to 72 with a pair / lone surrogate / raw control at every position, failing sources at every character of documents with surrogate escapes under every option value, plus the C01 families under every option value'),
+         'every sequence of <=4 (6) string elements from 8 element kinds in 8 shapes x 4 option values, escape runs up to 72 with a pair / lone surrogate / raw control at every position, failing sources at every character of documents with surrogate escapes under every option value, every two-character escape next to a surrogate escape, plus the C01 families under every option value'),
  'C13': ('byte-for-byte comparison of print_with, of Print::fmt_with at a base depth, of the forwarding impls and of a user-defined container printing through the public generic helpers with a reference layout printer written from the documentation',
-         '(value, option record) pairs as C04 with array/object fields different and thresholds from {w-1,w,w+1} or beyond any width, limits at usize::MAX, base depths up to 131,072; presets must not break lines'),
+         '(value, option record) pairs as C04 with array/object fields different and thresholds from {w-1,w,w+1} or beyond any width, limits at usize::MAX, base depths up to 131,072, format specifications on the placeholder; presets must not break lines'),
  'C14': ('algebraic-law monitors on pairs/triples (Eq/Ord/PartialOrd/Hash coherence, the six operators, antisymmetry, transitivity), on objects with identical entries built through 10 different histories (index internals shown different through the hook), at every step of random histories, after clone_from',
-         'generated pairs with near-copies (also at the bottom of 100-260 levels), all pairs and triples of a small exhaustive family and of an order family over keys where byte / code-point / UTF-16 order differ, all pairs and triples of a pool of ~100 number spellings (same number written differently, both signs of the neighbourhoods of 2^53 / 2^63 / 2^64), random related triples, containers of 1..130 members differing in one position, strings and keys of every length 0..40 differing in one byte or extended, clone_from over all pairs of a 341-object family'),
+         'generated pairs with near-copies (also at the bottom of 100-260 levels), all pairs and triples of a small exhaustive family and of an order family over keys where byte / code-point / UTF-16 order differ, all pairs and triples of a pool of ~100 number spellings (same number written differently, both signs of the neighbourhoods of 2^53 / 2^63 / 2^64), containers of 0-130 members next to short ones that lie between them (transitivity), containers of more than 65,536 members differing in one member beyond position 65,535, random related triples, containers of 1..130 members differing in one position, strings and keys of every length 0..40 differing in one byte or extended, clone_from over all pairs of a 341-object family'),
  'C15': ('normal-form oracle (recursively sorted entries) compared with unordered_eq / Unordered / as_unordered in both argument orders, on Value, Object, Meta and Vec<Meta>',
          'every ordered pair of the 4,369 objects with <=3 entries over 2 keys x 8 values (exhaustive), sampled pairs with <=4 entries (thorough), generated values against deep shuffles and single mutations, 2..130 duplicates of one key, wide objects with one repeated key, duplicate keys whose values nest permuted objects under arrays of arrays, operands with sort / canonicalize / removal / clone_from / grow-and-cut-back histories on either side'),
  'C16': ('round-trip and shape monitors relative to serde_json on instances of a derive-annotated type family; raw f32/f64 bit patterns, doubles with few significant bits and doubles with 1-9 significant decimal digits at every decimal exponent',
-         '65 top-level shapes covering every serde data-model method the serializer implements (incl. tagged / untagged / flattened shapes with unit and float payloads, zero-length and field-less shapes, chains and trees up to 300 / 150 deep, variant names differing in case only), integers at bounds, non-finite/subnormal floats, number-like strings and keys'),
+         '67 top-level shapes covering every serde data-model method the serializer implements (incl. tagged / untagged / flattened shapes with unit and float payloads, zero-length and field-less shapes, chains and trees up to 300 / 150 deep, variant names differing in case only, fields left out of the rendering when empty), integers at bounds, non-finite/subnormal floats, number-like strings and keys'),
  'C17': ('model oracle for Serialize (verbatim / integer re-rendering / duplicate collapse) and number-denotation oracle for the two Deserialize paths; known classes K1, K2, K5',
-         'single numbers of every lexical class (incl. beyond the double range and doubles with few significant bits in three renderings) and nested values with and without duplicate keys, token-named keys at every position, depth 100-120, arrays and objects of 11,915-140,000 members, arrays of records; objects of 1-66 distinct keys in which each key in turn recurs at the end; deserialize_in_place'),
+         'single numbers of every lexical class (incl. beyond the double range and doubles with few significant bits in three renderings) and nested values with and without duplicate keys, token-named keys at every position, depth 100-120, arrays and objects of 11,915-140,000 members, arrays of records; objects of 1-66 distinct keys in which each key in turn recurs at the end; values nested 127-400 levels Value to Value, arrays of 31-66 small integers around the byte range; deserialize_in_place'),
  'C18': ('round-trip monitors in both directions under catch_unwind; known classes K3, K4 decided by exact predicates',
-         'serde_json values with all three number representations and extremes; json-syntax values of every number class incl. out-of-domain ones; nesting 100-300 with several children per level; containers of 65,537-200,001 members, large containers nested in large containers, arrays of records, arrays and objects whose neighbouring members are a long number literal and its prefixes'),
+         'serde_json values with all three number representations and extremes; json-syntax values of every number class incl. out-of-domain ones; nesting 100-300 with several children per level; containers of 65,537-200,001 members, large containers nested in large containers, arrays of records, arrays and objects whose neighbouring members are a long number literal and its prefixes, containers of 1-70 / 127-130 scalars with one nested member at every position'),
  'C19': ('generated programs: json! invocations emitted as Rust source, compiled against the current tree (all features) and executed; each compares the constructed value with the parse of the matching text',
          '8 x 150 (thorough 16 x 500) invocations: nesting, trailing commas, every literal kind, suffixed integers at bounds, random / sparse / f32-suffixed float literals, duplicate and expression keys, three delimiters, runs of k = 1..40 literals (also over five keys only); texts with raw or escaped non-ASCII characters; positions reported by every key lookup compared; literals of 127-1030 characters and of 8 / 64 KiB; parse_slice must agree with parse_str'),
  'C20': ('complete enumeration against a BTreeSet / double-ended-queue model',
